@@ -1,17 +1,18 @@
 #!/bin/bash
-# usage: seed_intake.sh <Cxx> <m1|m2>   — confirms a seeded change (suite passes with it, demo fails with it and passes
+# usage: seed_intake.sh <Cxx> <m1|m2> [base dir=/tmp/seed] [name under seeded/, default = m1|m2]
+#   — confirms a seeded change (suite passes with it, demo fails with it and passes
 # without it) in the scratch worktree /tmp/seed/<Cxx> and files it under /verif/seeded/<Cxx>-<m>/
 set -u
-ID=$1; M=$2; W=/tmp/seed/$ID; O=/tmp/seed/$ID-out/$M; D=/verif/seeded/$ID-$M
+ID=$1; M=$2; BASE=${3:-/tmp/seed}; DM=${4:-$M}; W=$BASE/$ID; O=$BASE/$ID-out/$M; D=/verif/seeded/$ID-$DM
 export GOFLAGS=-mod=mod GOPROXY=off
 git -C $W checkout -q -- . && git -C $W clean -fdq
 git -C $W apply $O/patch.diff || { echo "PATCH DOES NOT APPLY"; exit 1; }
 (cd $W && go build ./... ) || { echo "DOES NOT BUILD"; git -C $W checkout -q -- .; exit 1; }
 SUITE=$(cd $W && timeout 1200 go test -vet=off -count=1 ./... 2>&1 | grep -v "no test files" | grep -v "^ok" | head -5)
 [ -z "$SUITE" ] && SUITE_OK=pass || SUITE_OK="FAIL: $SUITE"
-(cd $O && timeout 900 bash ./run_demo.sh >/tmp/seed/$ID-$M.with.log 2>&1); WITH=$?
+(cd $O && timeout 900 bash ./run_demo.sh >$BASE/$ID-$M.with.log 2>&1); WITH=$?
 git -C $W checkout -q -- . && git -C $W clean -fdq
-(cd $O && timeout 900 bash ./run_demo.sh >/tmp/seed/$ID-$M.without.log 2>&1); WITHOUT=$?
+(cd $O && timeout 900 bash ./run_demo.sh >$BASE/$ID-$M.without.log 2>&1); WITHOUT=$?
 git -C $W checkout -q -- . && git -C $W clean -fdq
 echo "$ID-$M suite=$SUITE_OK demo_with_patch_exit=$WITH demo_without_patch_exit=$WITHOUT"
 if [ "$SUITE_OK" = pass ] && [ $WITH -ne 0 ] && [ $WITHOUT -eq 0 ]; then
